@@ -451,14 +451,15 @@ func (sched *StdScheduler) ResumeJob(jobKey *JobKey) error {
 		return newIllegalStateError(ErrJobIsActive)
 	}
 
+	// ask the trigger first, so that a trigger error leaves the job in place
+	nextRunTime, err := job.Trigger().NextFireTime(NowNano())
+	if err != nil {
+		return err
+	}
+
 	job, err = sched.queue.Remove(jobKey)
 	if err == nil {
 		job.JobDetail().opts.Suspended = false
-		var nextRunTime int64
-		nextRunTime, err = job.Trigger().NextFireTime(NowNano())
-		if err != nil {
-			return err
-		}
 		resumed := &scheduledJob{
 			job:      job.JobDetail(),
 			trigger:  job.Trigger(),
